@@ -109,4 +109,55 @@ for pid, what in (("C16", "typed header values and name capitalisations"), ("C17
         "level_note": NOTE_A,
     }
 
+TEXTS["C06"] = {
+    "engine": "vsched", "design_ref": "DESIGN.md §4 C06",
+    "technique": "exhaustive fault enumeration on the real transport: all plans of socket answers (short write / would-block "
+                 "and hold) with <= D deviations over the first 8 write calls x all write lists x issue schedules, "
+                 "event loop stepped deterministically through an interposed epoll_wait",
+    "level_text": "Every (write list, issue schedule, answer plan) combination within the bounds is executed on the real "
+                  "Tcp::Transport and reactor; the peer's byte stream, the settle count/value/time of every promise and "
+                  "liveness at quiescence are checked on each. Exhaustive within D and the size alphabet.",
+    "level_note": NOTE_B,
+}
+TEXTS["C07"] = {
+    "engine": "vsched", "design_ref": "DESIGN.md §4 C07",
+    "technique": "exhaustive enumeration of a stall grid (pending writes x would-block position x stall duration x arrival "
+                 "step of another connection's request x kernel event order) on the real transport, step-bounded liveness "
+                 "and busy-wait verdicts",
+    "level_text": "All 3360 combinations run on the real transport + Http::Handler; the other connection must be answered "
+                  "within a fixed number of event-loop steps, the worker must return to epoll_wait after a would-block, and "
+                  "the stalled connection must receive everything after release.",
+    "level_note": NOTE_B,
+}
+TEXTS["C08"] = {
+    "engine": "vsched", "design_ref": "DESIGN.md §4 C08",
+    "technique": "explicit enumeration of all client-event histories up to a depth bound against a real Http::Endpoint whose "
+                 "threads are gated at epoll_wait under virtual time; invariants after every history",
+    "level_text": "All histories over connect / partial and whole requests / read / close / half-close / reset / tick (and, "
+                  "thorough, write stalls) on 1..2 connections up to the depth bound are executed; handler call balance, "
+                  "double release, descriptor and per-connection state at quiescence, continued service and thread "
+                  "termination are checked after each.",
+    "level_note": NOTE_B,
+}
+TEXTS["C09"] = {
+    "engine": "vsched", "design_ref": "DESIGN.md §4 C09",
+    "technique": "deviation-bounded DFS over the orders of event-loop steps of real acceptor/worker threads and client actions, "
+                 "shutdown injected at every schedule prefix, plus the same schedules under ThreadSanitizer with a "
+                 "built-in vacuity self-test",
+    "level_text": "Scenarios with 2-3 workers sharing one router and 2-3 keep-alive clients are explored up to D deviations "
+                  "from the canonical order; responses must match their requests, shutdown at every point must terminate "
+                  "all threads, and the TSan build (gate and socket I/O invisible to TSan, deliberate race must be seen) "
+                  "must report no race.",
+    "level_note": NOTE_B + "; granularity is one epoll_wait batch per thread",
+}
+TEXTS["C14"] = {
+    "engine": "vsched", "design_ref": "DESIGN.md §4 C14",
+    "technique": "exhaustive enumeration of read splits around each size limit and of a stall-point x duration x time-out grid "
+                 "under virtual time against a real gated Http::Endpoint",
+    "level_text": "Every split of limit-1/limit/limit+1 sized requests into <=3 reads and every (time-out pair, stall point, "
+                  "stall duration, scan phase) combination is executed on the real endpoint; 413/handler and 408/200 "
+                  "outcomes must be exactly as the limits prescribe.",
+    "level_note": NOTE_B + "; time is virtual",
+}
+
 NOT_APPLICABLE = {}
